@@ -1,9 +1,15 @@
 """C08 — A gene rule is a Boolean function and its text form is faithful."""
 from contracts import c07_knockout as C
+from contracts import c08_visitors as V
 from props._generic import run_property, replay_with_driver
 
 LEVEL = "other"
 KEYS = ["GPR._eval_gpr", "GPR.eval", "Reaction.functional@getter"]
+# the tree-walking visitor classes (contracts/c08_visitors.py; hook table V.HOOKS: child lists as heap state)
+VISITOR_KEYS = ["_GeneRemover.visit_Name", "_GeneRemover.visit_BoolOp",
+                "GPRWalker.visit_Name", "GPRWalker.visit_BoolOp", "GPR.update_genes", "GPR.genes@getter/proved",
+                "GPR._symbolic_gpr", "GPR.as_symbolic", "GPR.__eq__", "GPRCleaner.visit_BinOp",
+                "GPR._eval_gpr/heap", "GPR.eval/heap", "GPR.copy", "GPR.__copy__"]
 
 
 def run(rep):
@@ -14,8 +20,52 @@ def run(rep):
         "regex escaping of identifiers, CPython's parser, to_string, symbolic round trips, ==) is outside the SMT string fragments "
         "that terminate and outside this verifier: exhaustive small-domain enumeration in the bounded driver (all trees with <=4 "
         "leaves over an alphabet covering every identifier class the statement names x spellings x knock-out subsets against an "
-        "independent truth-table evaluator, plus copy/pickle/symbolic round trips, == and remove_genes)."),
-        trusted=["ast.parse / re / sympy (assumed)", "rule trees are finite and acyclic"])
+        "independent truth-table evaluator, plus copy/pickle/symbolic round trips, == and remove_genes). "
+        "Tree-walking visitor classes (ast.NodeVisitor / NodeTransformer, dispatch on the node's class modelled as a case split on its "
+        "kind tag, rule trees as a MUTABLE heap): _GeneRemover.visit_Name / visit_BoolOp (what remove_genes applies to every rule it "
+        "keeps) are proved, by structural induction, to return None only if the old rule is False with the target genes absent, and "
+        "otherwise a well-formed tree that evaluates, for every set K of absent genes, to what the old rule evaluates to with K and "
+        "the target genes absent (precondition: well-formed tree whose and/or nodes have at least one child). GPRWalker.visit_Name / "
+        "visit_BoolOp, GPR.update_genes and the GPR.genes getter are proved to report exactly names(tree), the identifiers of the "
+        "Name nodes occurring in the tree (nothing when the rule has no body); lemma steps: the value of a rule depends only on the "
+        "absent genes among names(tree), and only on the heap below the node. Assumed per visitor class: generic_visit (children "
+        "visited in order / child list replaced by the non-None results; carries the induction hypothesis and the disjointness of "
+        "sibling sub-trees) and the dispatch of visit. Symbolic form: GPR._symbolic_gpr (every kind of node, with a symbol table "
+        "mapping each name of the tree to Symbol(name), and the first call that builds that table from GPR.genes) and GPR.as_symbolic "
+        "(no display names) are proved to return, for a rule with a body, an expression whose Boolean value equals the rule's for "
+        "every set of absent genes, and exactly Symbol('') for a rule without body - relative to the ASSUMED meaning of sympy's "
+        "Symbol / Or / And; GPR.__eq__ is proved to return True only for logically equivalent rules, relative to the ASSUMED "
+        "soundness of sympy's `equals` and structural `==` of Symbols. GPRCleaner.visit_BinOp (the `&` / `|` spelling) is proved to "
+        "return a NEW BoolOp node with an And node for `&` and an Or node for `|` whose `values` is a LIST (precondition of the assumed "
+        "constructor contract: a tuple there is rejected) holding exactly the cleaned left and right operand in this order, so that its "
+        "value is their conjunction / disjunction, and to raise TypeError for every other operator. GPR._eval_gpr / GPR.eval are "
+        "proved a second time, against this heap-resident semantics, so that evaluation, removal, symbolic form, == and the gene "
+        "set are all stated about one function; lemma kept-rule-is-old-rule-with-genes-absent lifts the remover's contract to the "
+        "GPR object remove_genes rewrites. from_symbolic's recursive converter _sympy_to_ast is proved to return, for a sympy expression "
+        "of the Symbol / Or / And fragment, a well-formed tree with the expression's Boolean value (sympy accessors func / args / name "
+        "assumed inverse to the constructors; node allocation modelled functionally: the function only builds). The directly recursive "
+        "functions (_symbolic_gpr, _sympy_to_ast, _eval_gpr) carry a variant - height of the node / size of the expression decreases at "
+        "every recursive call - so that `recursive call = own contract` is a well-founded induction. GPR.copy / __copy__ pass an "
+        "assumed deepcopy through."),
+        more=[(VISITOR_KEYS, V.HOOKS), (["GPR.from_symbolic._sympy_to_ast"], V.HOOKS_S2A)], lemmas=V.all_lemmas,
+        trusted=["ast.parse / re / sympy (assumed)", "rule trees are finite and acyclic",
+                 "ast.NodeVisitor.visit dispatches on the node's class name to visit_<Class> or generic_visit (assumed contracts "
+                 "_GeneRemover.visit / GPRWalker.visit whose cases are the proved method contracts)",
+                 "ast.NodeTransformer.generic_visit / ast.NodeVisitor.generic_visit on a BoolOp node of a rule TREE (sibling sub-trees "
+                 "disjoint), including the induction hypothesis for the children (assumed contracts _GeneRemover.generic_visit / "
+                 "GPRWalker.generic_visit)",
+                 "GPRWalker() creates a visitor with an empty gene_set; copy.deepcopy of a set of strings is an equal set",
+                 "object allocation ast.BoolOp(op, values) / ast.And() / ast.Or(): a new node that is no child of an existing node, "
+                 "class tag and operator fixed at construction (assumed contracts); NodeTransformer.generic_visit on a BinOp node "
+                 "replaces left / right by nodes (assumed contract GPRCleaner.generic_visit)",
+                 "copy.deepcopy of a GPR object returns another GPR object with the same truth table, the same names and a body exactly "
+                 "when the original has one (assumed; GPR.copy / __copy__ are proved to pass it through)",
+                 "sympy accessors: an expression of the GPR fragment is an Or / And of >= 1 such expressions (func, args) or an "
+                 "argument-less Symbol with a name, with the corresponding meaning; expressions and rule trees are finite (size / height "
+                 "decrease to arguments / children); ast.Name(id=..) / ast.BoolOp(op=.., values=[..]) as functional allocation inside "
+                 "_sympy_to_ast (assumed)",
+                 "sympy: Symbol(k) is true iff k is not absent, Or(*es) / And(*es) mean some / all of es (whatever simplification they "
+                 "apply), a.equals(b) is True only for logically equivalent a, b, `==` of two Symbols is structural (assumed)"])
 
 
 def replay(payload):
